@@ -120,6 +120,8 @@ def expand(combo, count_obs):
         if muts[k][0] == 'wopen':
             for lim in (0, 1, 9, 60, 400):
                 out.append(_base(combo, {'diskerr': {'k': k, 'errno': 'ENOSPC', 'wlimit': lim}}))
+            for lim in (0, 9, 400):
+                out.append(_base(combo, {'diskerr': {'k': k, 'errno': 'ENOSPC', 'wlimit': lim, 'at_close': True}}))
     slugs = ['grp:target'] + (['upper'] if combo['shape'] == 'chain' else [])
     for slug in slugs:
         for kind in RUN_FAULTS:
